@@ -38,7 +38,30 @@ plainwords = st.lists(st.just(('word',)), min_size=0, max_size=3)
 OPEN_ARG = ['\\textcolor{KEY}{', '\\footnote{', '\\section{', '\\href{KEY}{', '\\zzone{', '\\textcolor{', '\\colorbox{KEY}{',
             '\\caption{', '\\LTadd{', '\\zzpair{KEY}{', '\\subsection*{', '\\foreignlanguage{german}{', '\\texorpdfstring{']
 OPEN_OPT = ['\\cite[', '\\caption[', '\\footnote[', '\\section[', '\\zzopt[', '\\includegraphics[', '\\begin{figure}[', '\\framebox[']
+
+
+def catalogue_heads():
+    """every declared macro / environment with its k-th argument left open: (heads with an open mandatory
+    argument, heads with an open optional argument); earlier mandatory arguments are given as {KEY}"""
+    from vlib import soup
+    macros, envs = soup.catalogue()
+    oa, oo = [], []
+    for name, args in list(macros.items()) + [('\\begin{%s}' % k, v) for k, v in envs.items()]:
+        if name.startswith(('\\KOMAoption', '\\begin{alignat')):
+            continue        # class not loaded in these runs; argument followed by maths
+        for i, c in enumerate(args):
+            pre = name + ''.join('{KEY}' if x == 'A' else '' for x in args[:i])
+            if c == 'A':
+                oa.append(pre + '{')
+            elif c == 'O':
+                oo.append(pre + '[')
+    return oa, oo
+
+
+CAT_ARG, CAT_OPT = catalogue_heads()
 fault = st.one_of(
+    st.tuples(st.just('argc'), st.sampled_from(CAT_ARG)),
+    st.tuples(st.just('optc'), st.sampled_from(CAT_OPT), plainwords),
     st.tuples(st.just('imath'), st.sampled_from(['$', '\\(']), st.sampled_from(['x', 'a+b', 'x_1^2 = \\alpha', '\\frac{a}{b}', '']), plainwords),
     st.tuples(st.just('dmath'), st.sampled_from(['\\[', '$$', '\\begin{equation}', '\\begin{align}', '\\begin{eqnarray*}']),
               st.sampled_from(['x', 'a &= b \\\\ c &= d', 'x.', '']), plainwords),
@@ -100,12 +123,14 @@ def build(case, flags):
         m.emit(flt[3])
         rest = []
         info['seqs'] = len(m.source()) % 3 == 0
-    elif kind == 'arg':
+    elif kind in ('arg', 'argc'):
         parts = flt[1]
         docgen.fill(m, parts[:-1])
         info['off'] = m.emit(parts[-1])
-    elif kind == 'opt':
-        m.emit(flt[1][:-1])
+        if kind == 'argc':
+            rest = [(s, it) for s, it in rest if it == ('word',)]
+    elif kind in ('opt', 'optc'):
+        docgen.fill(m, flt[1][:-1])
         info['off'] = m.emit('[')
         for w in flt[2]:
             m.emit(m.word() + ' ')
@@ -136,8 +161,8 @@ def build(case, flags):
     if rest:
         if para_needed:
             m.emit('\n\n')
-        docgen.render_flow(m, rest, first_sep=(kind not in ('imath', 'dmath', 'verb', 'skip', 'opt')))
-    if kind != 'opt':
+        docgen.render_flow(m, rest, first_sep=(kind not in ('imath', 'dmath', 'verb', 'skip', 'opt', 'optc')))
+    if kind not in ('opt', 'optc'):
         m.emit(tail)
     later_main = [a for a in m.main[mark0:] if a[0] == 'w' and a[3] == 'word']
     later_det = [a for f, _, _ in m.done[done0:] for a in f if a[0] == 'w' and a[3] == 'word']
